@@ -889,6 +889,28 @@ def o_to_crs(case, T):
         T.nontrivial(("to_crs", kind, a, b))
 
 
+def o_to_crs_options(case, T):
+    """Options that do not concern geometries inside the valid areas must not change the faithful result: for a
+    geometry whose longitudes stay within +-170 deg, to_crs(..., wrapdateline=True) and to_crs(..., check_and_fix=True)
+    must give the same type, part/ring structure and vertices as the plain conversion (the statement's 'maps every
+    vertex as the projection library does, preserves geometry type, ring/part structure and vertex order' holds for
+    every way of asking for the conversion)."""
+    a, b = case["src"]["label"], case["dst"]["label"]
+    G = _src_geom(case)
+    g = _mk_geometry(G, case["src"])
+    want = g_map(G, _chain_tr(a, b))
+    for kw in ({"wrapdateline": True}, {"check_and_fix": True}, {"wrapdateline": True, "check_and_fix": True}, {"resolution": float("inf"), "wrapdateline": True}):
+        if "check_and_fix" in kw and not g.to_crs(mk_crs_spec(case["dst"])).is_valid:
+            continue  # check_and_fix is allowed to repair an invalid result
+        out = g.to_crs(mk_crs_spec(case["dst"]), **kw)
+        require(_crs_is(out.crs, b), "to_crs(%r): result crs %r, expected %s", kw, out.crs, b)
+        require(out.geom_type == G[0], "to_crs(%r): geom_type %s, expected %s (structure must be preserved away from the dateline)", kw, out.geom_type, G[0])
+        _cmp_coords(shp_to_g(out.geom), want, 1e-12, f"to_crs({a}->{b}, {kw})")
+    kind = kind_of(G)
+    T.cls("kind:" + kind)
+    T.nontrivial(("to_crs_options", kind, a, b))
+
+
 def o_round_trip(case, T):
     a, b = case["src"]["label"], case["dst"]["label"]
     G = _src_geom(case)
@@ -1125,6 +1147,7 @@ def o_after_many(case, T):
 
 
 def build(chk: Check) -> None:
+    chk.sub("to_crs_options", o_to_crs_options, strategy=s_to_crs(), n={"quick": 1200, "thorough": 40000}, budget_s={"quick": 40, "thorough": 200})
     chk.sub("to_crs_after_many_crs", o_after_many, strategy=s_after_many(), n={"quick": 40, "thorough": 1500}, budget_s={"quick": 40, "thorough": 200}, shrink=False)
     # budgets are per sub-check per shard; their sum bounds the tier's wall time (quick 90 s, thorough 15 min)
     chk.sub("segmented_examples", o_segmented, enum=e_examples, exhaustive_tiers=("quick", "thorough"))
